@@ -17,19 +17,27 @@ namespace Collector
 open Heap Extracted.Collector Extracted.CollectorDeferred
 
 /-- the identity cache the callback works with, given the one the action ended with -/
-def cacheAtCallback (c : Cache) : Cache := if exitKeepsCache && cacheOnlyGrows then c else []
+def cacheAtCallback (c : Cache) : Cache := if exitKeepsCache && cacheOnlyGrows && cacheRebinds.isEmpty then c else []
 
-/-- the snapshot a deferred snapshot action pushes when its callback runs at `event` with trace argument `value` -/
-def deferredSnapshot (H : Heap) (a : ActionIn) (event : String) (value : ObjId) : Outcome :=
+/-- the snapshot a deferred snapshot action pushes when its callback runs at `event` with trace argument `value`.
+    TWO heaps: `H` = the program state at the tracepoint's line (phase 1), `H'` = the state at the completing event — the host
+    has run in between and may have changed the objects phase 1 recorded.  Object identities are the same in both (`ObjId`:
+    recorded roots are held alive, so their `id()` is stable); the cache and the table keep what was made under `H`: an
+    object phase 1 recorded is answered by the cache in phase 2 and is NOT looked at again. -/
+def deferredSnapshot2 (H H' : Heap) (a : ActionIn) (event : String) (value : ObjId) : Outcome :=
   let r := collectFrom H a [] []
   match r.outcome with
   | .failed m => .failed m
   | .ok s =>
     if callbackCaptureEvents.contains event then
-      let w := collectWatches H a.limits [⟨.capture, event, value⟩] (cacheAtCallback r.cache) s.table
+      let w := collectWatches H' a.limits [⟨.capture, event, value⟩] (cacheAtCallback r.cache) s.table
       match w.failed with
       | some m => .failed m
       | none => .ok ⟨s.frames, w.table, s.watches ++ w.outs⟩
     else .ok s
+
+/-- the special case in which the host changed nothing the snapshot looks at between the two phases -/
+def deferredSnapshot (H : Heap) (a : ActionIn) (event : String) (value : ObjId) : Outcome :=
+  deferredSnapshot2 H H a event value
 
 end Collector
